@@ -34,7 +34,8 @@ fn main() {
             let from: usize = opt.get("from").and_then(|s| s.parse().ok()).unwrap_or(0);
             // --wide k: every k-th behaviour mixes BMP and astral characters (0 = none)
             let wide: usize = opt.get("wide").and_then(|s| s.parse().ok()).unwrap_or(0);
-            match yx::yata::random_from(&opt["out-sched"], &opt["out"], seed, from, nb, ops, &ext, gc_off, rich, wide) {
+            let cf = opt.get("cf").map(|s| s == "1").unwrap_or(false);
+            match yx::yata::random_from(&opt["out-sched"], &opt["out"], seed, from, nb, ops, &ext, gc_off, rich || cf, cf, wide) {
                 Ok((nb, nev)) => println!("{{\"behaviours\": {}, \"events\": {}}}", nb, nev),
                 Err(e) => {
                     eprintln!("yx: {}", e);
